@@ -907,6 +907,34 @@ func (d *discharger) p3(o pob) string {
 					got = true
 				}
 			}
+			if !got && an.IsConstBool(v, true) {
+				// `case A, B, C: return true`: several tests branch straight into the one return; every way
+				// into its block must come from an EventType() == constant edge
+				got = true
+				n := 0
+				ef := an.EdgeFacts(handle)
+				for _, pred := range r.Block().Preds {
+					for k, sc := range pred.Succs {
+						if sc != r.Block() {
+							continue
+						}
+						n++
+						one := false
+						for _, f := range ef[an.Edge{From: pred, Succ: k}] {
+							if f.L == "invoke:EventType($1)" && f.Op == "==" && strings.HasPrefix(f.R, "c:") {
+								accepted[f.R] = true
+								one = true
+							}
+						}
+						if !one {
+							got = false
+						}
+					}
+				}
+				if n == 0 {
+					got = false
+				}
+			}
 			if ph, isPhi := v.(*ssa.Phi); !got && isPhi && ph.Block() == r.Block() {
 				// `return t == A || t == B || ...`: one way per operand of the phi
 				got = true
